@@ -178,12 +178,25 @@ def check_phys(ctx, P):
     impls = [f for f in P.crate_fns(CR) if f.name.endswith("as phy::ProfibusPhy>::receive_data")]
     ctx.anchor("ProfibusPhy::receive_data implementations", len(impls), 2 if ctx.config == "default" else 0)
     for f in impls:
+        if not f.file.endswith(("phy/simulator.rs", "phy/serial.rs")):
+            # the property quantifies over the generic helpers on the simulator / harness PHYs; hardware back ends that only exist in
+            # other feature configurations are observed (evidence: not_decided), not judged
+            sub = rule.Ctx(ctx.pid, ctx.tier, ctx.config, ctx.prog)
+            _check_one_phy(sub, P, f)
+            bad = [o for o in sub.obligations if not o["ok"]]
+            ctx.notes.append("out of the property's scope (%s): %s" % (f.file, "; ".join("%s %s" % (o["loc"], o["detail"][:160]) for o in bad) or "drop handling follows the same rules"))
+            continue
+        _check_one_phy(ctx, P, f)
+
+
+def _check_one_phy(ctx, P, f):
+    if True:
         ctx.analysed_fns.add(f.name)
         tb = TermBuilder(f, P)
         cb = [(b, c) for b, c in call_sites(f, lambda c: callee_is(c, "std::ops::FnOnce::call_once"))]
         ctx.ob("c.phy", "callback-once|" + f.name, len(cb) == 1, "receive_data must invoke the callback exactly once (found %d sites)" % len(cb), f.loc(0))
         if len(cb) != 1:
-            continue
+            return
         def is_drop(t):
             t = strip_casts(strip_refs(t))
             return t[0] == "field" and t[2] == "0" and strip_refs(t[1])[0] == "call" and "call_once" in strip_refs(t[1])[1]
